@@ -99,8 +99,8 @@ impl Runner {
         }
     }
 
-    /// Returns None when the run straddled a wall-clock second (caller retries).
-    pub fn run(&self, s: &MScript) -> Option<Vec<Value>> {
+    /// Warm up, empty and snapshot the caches of a run; returns (threads, reset line, current states).
+    pub fn prepare(&self, s: &MScript, ev: &str) -> (usize, Value, Map<String, Value>) {
         let threads = s.threads.max(1).min(self.workers.len());
         let fx: Vec<&Fixture> = s
             .fixtures
@@ -155,14 +155,15 @@ impl Runner {
             }
         }
         reset_versions();
-
-        let t0 = Instant::now();
-        let sec0 = unix_now();
-        let mut out: Vec<Value> = Vec::new();
         let mut cur: Map<String, Value> = Map::new();
         self.full_snapshot(&mut cur, threads);
+        let line = self.header_line(s, ev, threads, &cur);
+        (threads, line, cur)
+    }
 
-        // reset line: configuration and wrapper attributes of every cache of the trace
+    /// reset / quiesce line: configuration and wrapper attributes of every cache of the run
+    pub fn header_line(&self, s: &MScript, ev: &str, threads: usize, cur: &Map<String, Value>) -> Value {
+        let fx: Vec<&Fixture> = s.fixtures.iter().map(|n| &self.fixtures[n]).collect();
         let mut cfgs = Map::new();
         let mut metas = Map::new();
         for f in &fx {
@@ -182,24 +183,40 @@ impl Runner {
                 );
             }
         }
-        {
-            let mut m = base("reset", "");
-            m.insert("trace".into(), json!(s.id));
-            m.insert("cfgs".into(), Value::Object(cfgs));
-            m.insert("metas".into(), Value::Object(metas));
-            let mut pm = Map::new();
-            for n in self.used.borrow().iter() {
-                let f = &self.fixtures[n];
-                pm.insert(
-                    f.cache_name.clone(),
-                    json!({"fixture": f.name, "tags": f.tags, "events": f.events, "deps": f.deps}),
-                );
-            }
-            m.insert("pmetas".into(), Value::Object(pm));
-            m.insert("sts".into(), Value::Object(cur.clone()));
-            out.push(Value::Object(m));
+        let mut m = base(ev, "");
+        m.insert("trace".into(), json!(s.id));
+        m.insert("cfgs".into(), Value::Object(cfgs));
+        m.insert("metas".into(), Value::Object(metas));
+        let mut pm = Map::new();
+        for n in self.used.borrow().iter() {
+            let f = &self.fixtures[n];
+            pm.insert(
+                f.cache_name.clone(),
+                json!({"fixture": f.name, "tags": f.tags, "events": f.events, "deps": f.deps}),
+            );
         }
+        m.insert("pmetas".into(), Value::Object(pm));
+        m.insert("sts".into(), Value::Object(cur.clone()));
+        Value::Object(m)
+    }
 
+    /// Returns None when the run straddled a wall-clock second (caller retries).
+    pub fn run(&self, s: &MScript) -> Option<Vec<Value>> {
+        let (threads, line, mut cur) = self.prepare(s, "reset");
+        let t0 = Instant::now();
+        let sec0 = unix_now();
+        let mut out: Vec<Value> = vec![line];
+        self.exec_ops(s, threads, &mut cur, &mut out);
+        if unix_now() != sec0 || t0.elapsed() > Duration::from_millis(400) {
+            return None;
+        }
+        Some(out)
+    }
+
+    /// Execute scripted operations sequentially (on the worker threads), appending their events.
+    pub fn exec_ops(&self, s: &MScript, threads: usize, cur_: &mut Map<String, Value>, out: &mut Vec<Value>) {
+        let fx: Vec<&Fixture> = s.fixtures.iter().map(|n| &self.fixtures[n]).collect();
+        let mut cur = std::mem::take(cur_);
         for op in &s.ops {
             match op.op.as_str() {
                 "call" => {
@@ -395,10 +412,7 @@ impl Runner {
                 other => panic!("unknown macro op {}", other),
             }
         }
-        if unix_now() != sec0 || t0.elapsed() > Duration::from_millis(400) {
-            return None;
-        }
-        Some(out)
+        *cur_ = cur;
     }
 
     pub fn run_retry(&self, s: &MScript) -> Vec<Value> {
